@@ -341,7 +341,23 @@ def run_shard(shard, rec):
         for i in order:
             entry = ENTRY[i % len(ENTRY)]
             rng = random.Random(990000 + i)
-            if i % 6 == 5:
+            if i % 6 == 4:
+                # pair-level paths (filter_candset -> filter_pair) order tokens per pair: every token
+                # of these values occurs once or twice, so frequency ties are everywhere
+                words = ['w%02d' % x for x in range(14)]
+                L = T.table_spec(['lid', 'lattr'], [[x, ' '.join(rng.sample(words, rng.randint(3, 8)))]
+                                                    for x in range(6)], dtypes={'lattr': 'object'})
+                R = T.table_spec(['rid', 'rattr'], [[x, ' '.join(rng.sample(words, rng.randint(3, 8)))]
+                                                    for x in range(6)], dtypes={'rattr': 'object'})
+                kind = ['SuffixFilter', 'PositionFilter', 'PrefixFilter', 'SuffixFilter'][(i // 6) % 4]
+                cs = T.table_spec(['_id', 'l_lid', 'r_rid'], [[n_, a_, b_] for n_, (a_, b_) in
+                                                              enumerate((a, b) for a in range(6) for b in range(6))])
+                call = {'api': 'filter_candset', 'ltable': L, 'rtable': R, 'candset': cs, 'c_l_key': 'l_lid',
+                        'c_r_key': 'r_rid', 'l_key': 'lid', 'r_key': 'rid', 'l_attr': 'lattr', 'r_attr': 'rattr',
+                        'tok': {'kind': 'ws', 'return_set': True}, 'n_jobs': 1,
+                        'filter': {'kind': kind, 'measure': rng.choice(['JACCARD', 'COSINE', 'DICE']),
+                                   'threshold': rng.choice([0.3, 0.4, 0.5, 0.6])}}
+            elif i % 6 == 5:
                 # edit-distance joins over one small string pool with q in {2,3} and few thresholds
                 pool = seq.string_pool(random.Random(77), 16)
                 q = [2, 3][(i // 6) % 2]
